@@ -19,7 +19,9 @@ Record zlike (A : arith) (S : Z) := {
   r_kmuldiv_down : forall a b c, raw c <> 0 -> exists d, kmuldiv A a b c false = Ok d /\ raw d = raw a * raw b / raw c;
   r_ltv_exact : exact A = false -> forall a b, ltv A a b = (raw a <? raw b);
   r_gev_exact : exact A = false -> forall a b, gev A a b = (raw b <=? raw a);
-  r_eqv_exact : exact A = false -> forall a b, eqv A a b = (raw a =? raw b)
+  r_eqv_exact : exact A = false -> forall a b, eqv A a b = (raw a =? raw b);
+  (* a multiplier compares equal to one exactly when it is one (also under the fuzzy Guarded comparison) *)
+  r_eqv_one : forall a n, raw a = n * S -> eqv A a (of_int A 1) = (n =? 1)
 }.
 Arguments raw {A S}.
 
@@ -46,6 +48,8 @@ Proof.
   - intros _ a b. unfold res_true, FixedKernels.dunder_lt, operand_value, bind. destruct (a <? b); reflexivity.
   - intros _ a b. unfold res_true, FixedKernels.dunder_ge, operand_value, bind. destruct (b <=? a); reflexivity.
   - intros _ a b. unfold res_true, FixedKernels.dunder_eq, operand_value, bind. destruct (a =? b); reflexivity.
+  - intros a n Ha. cbn in Ha. unfold res_true, FixedKernels.dunder_eq, operand_value, bind. cbn [FixedKernels.init FixedKernels.init_r f_scale mk_fixed_cls].
+    subst a. destruct (n * 10 ^ p =? 1 * 10 ^ p) eqn:E; destruct (n =? 1) eqn:E2; try reflexivity; nia.
 Defined.
 
 Lemma zlike_guarded p g d s : 0 <= p -> 0 <= g -> zlike (Guarded p g d s) (10 ^ (p + g)).
@@ -80,4 +84,15 @@ Proof.
     assert (G0: g = 0) by (destruct (g =? 0) eqn:E; [lia|discriminate]). subst g.
     destruct (rel_of_cmp st a b) as (E1 & _). rewrite E1, res_true_ok.
     change (g_geps st) with 1. lia.
+  - intros a n Ha. cbn in Ha.
+    destruct (rel_of_cmp st a (GuardedKernels.init st (OInt 1) false)) as (E1 & _). rewrite E1, res_true_ok.
+    cbn [GuardedKernels.init GuardedKernels.init_r]. rewrite HS'. subst a.
+    destruct (geps_spec p g d s Hg) as [He _]. fold st in He.
+    assert (Hle: g_geps st <= 10 ^ (p + g)).
+    { unfold st. cbn [g_geps mk_guarded_cls]. pose proof (pow10_pos'' g Hg).
+      assert (10 ^ g <= 10 ^ (p + g)) by (apply Z.pow_le_mono_r; lia).
+      destruct (10 ^ g / 2 =? 0) eqn:Z0; [lia|]. assert (10 ^ g / 2 <= 10 ^ g) by (apply Z.div_le_upper_bound; lia). lia. }
+    destruct (n =? 1) eqn:E2.
+    + assert (n = 1) by lia. subst n. replace (1 * 10 ^ (p + g) - 1 * 10 ^ (p + g)) with 0 by lia. cbn. lia.
+    + assert (10 ^ (p + g) <= Z.abs (n * 10 ^ (p + g) - 1 * 10 ^ (p + g))) by nia. lia.
 Defined.
